@@ -481,3 +481,18 @@ Theorem c11_code_try_read_100_after_error : forall f input f' e,
   = Some (i_reasons f', i_should_send_body f', i_await_100 f').
 Proof. exact gen_try_read_100_errst_ok. Qed.
 Print Assumptions c11_code_try_read_100_after_error.
+
+(* ================================================================== the whole chain in translated code *)
+(** [try_read_100] calls [parser::try_parse_response] with zero header slots; both are translated.  Chained: from what httparse returns
+    on the input to the flow's fields after the call, the translated code is the model's [try_read_100]
+    (proofs/Gen2_equiv_try100_parser.v: [gen_parse0] is the translated parser on the parser model's outcome). *)
+From Hoot.proofs Require Import Gen2_equiv_try100_parser.
+Theorem c11_code_try_read_100_chain : forall f input,
+  let g := gen_try_read_100 (i_reasons f) (i_should_send_body f) (i_await_100 f) (parsed_of (gen_parse0 input)) in
+  match try_read_100 f input with
+  | (f', Ok n) => g = Ok (i_reasons f', i_should_send_body f', i_await_100 f', n)
+  | (_, Err e) => g = Err e
+  | (_, Panic _) => exists s, g = Panic s
+  end.
+Proof. exact gen_try_read_100_chain. Qed.
+Print Assumptions c11_code_try_read_100_chain.
